@@ -57,6 +57,33 @@ def run_check(pid, repo, tier, seed=1, timeout=600):
     return rc, round(time.time() - t0, 1), viol, out
 
 
+def apply_per_file(repo, diff):
+    """Some kept diffs were taken in a scratch copy whose working tree already contained hunks that have since been
+    committed to /repo: apply file by file, skipping files whose hunks are already in the tree (reverse-applies)."""
+    import types
+
+    text = Path(diff).read_text()
+    head, *parts = re.split(r"(?m)^(?=diff --git )", text)
+    if not parts:  # plain unified diff without git headers
+        parts = re.split(r"(?m)^(?=--- a/)", text)[1:]
+    applied = 0
+    for part in parts:
+        tmp = Path(tempfile.mkstemp(suffix=".diff")[1])
+        tmp.write_text(part)
+        try:
+            a = subprocess.run(["git", "-C", str(repo), "apply", "--whitespace=nowarn", str(tmp)], capture_output=True, text=True)
+            if a.returncode == 0:
+                applied += 1
+                continue
+            rv = subprocess.run(["git", "-C", str(repo), "apply", "-R", "--check", "--whitespace=nowarn", str(tmp)], capture_output=True, text=True)
+            if rv.returncode == 0:
+                continue  # already in the tree
+            return types.SimpleNamespace(returncode=1, stderr=a.stderr)
+        finally:
+            tmp.unlink()
+    return types.SimpleNamespace(returncode=0 if applied else 1, stderr="nothing left to apply")
+
+
 def main():
     ap = argparse.ArgumentParser()
     ap.add_argument("pids", nargs="*")
@@ -92,6 +119,8 @@ def main():
                 subprocess.run(["git", "-C", str(repo), "checkout", "-q", "--", "."], check=True)
                 if "diff" in m:
                     r = subprocess.run(["git", "-C", str(repo), "apply", "--whitespace=nowarn", m["diff"]], capture_output=True, text=True)
+                    if r.returncode != 0:
+                        r = apply_per_file(repo, m["diff"])
                     if r.returncode != 0:
                         print(f"[{pid}] {m['name']}: patch does not apply: {r.stderr.strip()[:200]}")
                         results[m["name"]] = {"status": "does-not-apply"}
